@@ -62,6 +62,12 @@ func checkC14(c *Ctx, r *Report) {
 	r.NotDecided = []string{"completeness/uniqueness for every repository content and modification point (history-dependent; needs a simulated BMC)", "field values of each record (C07 layouts)"}
 	r.Trusted = []string{"go/types, go/ssa (x/tools v0.29.0)", "gopacket.NewPacket(...).Layer(t) returns the decoded layer of type t or nil"}
 
+	// "every field equal to the reference decoding … all ID-string encodings and lengths": the
+	// record's name is decoded with the encoding and the full 5-bit character count its
+	// type/length byte announces (rules shared with C07, C20)
+	checkIDStringHeader(c, r)
+	checkLatin1Decoders(c, r)
+
 	walk, mu := c.findSDRWalk()
 	if walk == nil {
 		r.Rule("key-is-record-id", "", 1)
